@@ -304,6 +304,16 @@ def run(R):
 
         def not_found_ok(F, handler, g):
             nf = fam_calls(F, pat='Status::not_found')
+            if not nf:
+                # `.ok_or_else(service_not_registered)`: a named function that does nothing but build the NOT_FOUND status
+                def builds_nf(k_):
+                    fp_ = re.sub(r'::<[^:]*>$', '', k_['fn'])
+                    bs_ = [x for x in h.bodies if x.kind == 'fn' and x.path == fp_] + ([h.helper_defs[fp_]] if fp_ in h.helper_defs else [])
+                    return len(bs_) == 1 and len(bs_[0].calls(pat='Status::not_found')) == 1 and all(is_call(strip_refs(rt_), pat='Status::not_found') for _, rt_ in mirlib.returned_terms(bs_[0]))
+                fu = [(m_, bb2_, t2_, k_) for m_, bb2_, t2_, k_ in fnitem_uses(F, builds_nf) if t2_ is not None]
+                if len(fu) == 1 and fu[0][2].get('name') in ('ok_or_else',):
+                    return True, 1
+                return False, len(fu)
             if len(nf) != 1:
                 return False, len(nf)
             b_, bb_, t_ = nf[0]
